@@ -30,47 +30,51 @@ def wire (w : World) (codec : Bytes) (comp : Option Bytes) (compressed : Bool) (
   | true, some z => w.compress z (w.encode codec v)
   | _, _ => w.encode codec v
 
-/-- **Re-encode path** (codecs differ): the same value comes out in the receiver's wire form. -/
-theorem reencode_carries_value (w : World) (L : WorldLaws w) (sameCompression wasCompressed : Bool)
-    (zc zs : Option Bytes) (cc sc v : Bytes) :
-    transformMsg w false sameCompression wasCompressed zc zs cc sc (wire w cc zc wasCompressed v)
+/-- **Re-encode path** (codecs differ): the same value comes out in the receiver's wire form
+    (the inflated payload has to fit the buffer limit, otherwise see C10). -/
+theorem reencode_carries_value (w : World) (L : WorldLaws w) (limit : Nat) (sameCompression wasCompressed : Bool)
+    (zc zs : Option Bytes) (cc sc v : Bytes) (hfit : (w.encode cc v).length ≤ limit) :
+    transformMsg w limit false sameCompression wasCompressed zc zs cc sc (wire w cc zc wasCompressed v)
       = .ok (wire w sc zs wasCompressed v) := by
-  unfold transformMsg wire
+  have hnot : ¬ (w.encode cc v).length > limit := by omega
+  unfold transformMsg wire decompressLimited
   cases wasCompressed <;> cases zc <;> cases zs <;>
-    simp [L.codec_roundtrip, L.compress_roundtrip, L.compress_nonempty]
+    simp [L.codec_roundtrip, L.compress_roundtrip, L.compress_nonempty, hnot]
 
 /-- **Recompress path** (same codec, compressed frame, compressions differ): the payload is
     decompressed with the sender's and recompressed with the receiver's compression. -/
-theorem recompress_carries_payload (w : World) (L : WorldLaws w) (zc zs : Option Bytes) (c payload : Bytes) :
-    transformMsg w true false true zc zs c c (match zc with | some z => w.compress z payload | none => payload)
+theorem recompress_carries_payload (w : World) (L : WorldLaws w) (limit : Nat) (zc zs : Option Bytes)
+    (c payload : Bytes) (hfit : payload.length ≤ limit) :
+    transformMsg w limit true false true zc zs c c (match zc with | some z => w.compress z payload | none => payload)
       = .ok (match zs with | some z => w.compress z payload | none => payload) := by
-  unfold transformMsg
-  cases zc <;> cases zs <;> simp [L.compress_roundtrip, L.compress_nonempty]
+  have hnot : ¬ payload.length > limit := by omega
+  unfold transformMsg decompressLimited
+  cases zc <;> cases zs <;> simp [L.compress_roundtrip, L.compress_nonempty, hnot]
   all_goals split <;> simp_all
 
 /-- **Fast path** (same codec; frame uncompressed or same compression): the bytes are untouched. -/
-theorem fast_path_identity (w : World) (sameCompression wasCompressed : Bool) (zc zs : Option Bytes)
+theorem fast_path_identity (w : World) (limit : Nat) (sameCompression wasCompressed : Bool) (zc zs : Option Bytes)
     (c data : Bytes) (h : (!wasCompressed || sameCompression) = true) :
-    transformMsg w true sameCompression wasCompressed zc zs c c data = .ok data := by
+    transformMsg w limit true sameCompression wasCompressed zc zs c c data = .ok data := by
   unfold transformMsg; simp [h]
 
 /-- The receiver gets the sender's value back, whatever path was taken (re-encode case shown;
     this is what "field-for-field content" means at the level of the abstract message value). -/
-theorem receiver_decodes_senders_value (w : World) (L : WorldLaws w) (sameCompression wasCompressed : Bool)
-    (zc zs : Option Bytes) (cc sc v : Bytes) :
-    ∃ out, transformMsg w false sameCompression wasCompressed zc zs cc sc (wire w cc zc wasCompressed v) = .ok out ∧
+theorem receiver_decodes_senders_value (w : World) (L : WorldLaws w) (limit : Nat) (sameCompression wasCompressed : Bool)
+    (zc zs : Option Bytes) (cc sc v : Bytes) (hfit : (w.encode cc v).length ≤ limit) :
+    ∃ out, transformMsg w limit false sameCompression wasCompressed zc zs cc sc (wire w cc zc wasCompressed v) = .ok out ∧
       (match wasCompressed, zs with
         | true, some z => (w.decompress z out).bind (w.decode sc)
         | _, _ => w.decode sc out) = some v := by
-  refine ⟨_, reencode_carries_value w L sameCompression wasCompressed zc zs cc sc v, ?_⟩
+  refine ⟨_, reencode_carries_value w L limit sameCompression wasCompressed zc zs cc sc v hfit, ?_⟩
   unfold wire
   cases wasCompressed <;> cases zs <;> simp [L.codec_roundtrip, L.compress_roundtrip]
 
 /-- Failure is visible: if the payload does not decode, the transformation is an error (and the
     caller reports it as the RPC's outcome) — never altered data. -/
-theorem undecodable_payload_is_error (w : World) (sameCompression : Bool) (zc zs : Option Bytes)
+theorem undecodable_payload_is_error (w : World) (limit : Nat) (sameCompression : Bool) (zc zs : Option Bytes)
     (cc sc data : Bytes) (h : w.decode cc data = none) :
-    transformMsg w false sameCompression false zc zs cc sc data = .error .other := by
+    transformMsg w limit false sameCompression false zc zs cc sc data = .error .other := by
   unfold transformMsg; simp [h]
 
 end Vanguard.C01
